@@ -146,6 +146,8 @@ extern "C" void harness_run()
       if (sim::draw(6) == 0) o.delta_ms = 4000000 + sim::draw(1000);
       if (sim::draw(4) == 0) o.delta_ms = 1 + sim::draw(1500);
       if (o.delta_ms <= 0) o.delta_ms = 1;
+      // a sleep is served tick by tick by the wheel thread: keep it to at most 5000 ticks (far advances are wall-clock jumps)
+      if (o.k == SLEEP && o.delta_ms > (int64_t)kc.ttlTickDuration.count() * 5000) o.k = WALLJUMP;
     }
     plan.push_back(o);
   }
